@@ -163,6 +163,29 @@ impl<'grammar> TypeInferencer<'grammar> {
             debug_assert!(self.types.lookup_nonterminal_type(id).is_some());
         }
 
+        // `nonterminal_type` skips alternatives whose type it could not compute because they
+        // refer back to a nonterminal that was still being inferred. Every nonterminal has a
+        // type now, so those alternatives can be checked against it as well.
+        let mut ids = ids;
+        ids.sort();
+        for id in &ids {
+            let nt = self.nonterminals[id];
+            let ty = self.types.nonterminal_type(id).clone();
+            for (i, alt) in nt.alternatives.iter().enumerate() {
+                match self.alternative_type(alt) {
+                    Ok(alt_ty) if nt.type_decl.is_none() && alt_ty != ty => return_err!(
+                        alt.span,
+                        "type of alternative #{} is `{}`, but the type of `{}` was inferred as `{}`",
+                        i + 1,
+                        alt_ty,
+                        id,
+                        ty
+                    ),
+                    _ => {}
+                }
+            }
+        }
+
         Ok(self.types)
     }
 
